@@ -154,6 +154,36 @@ PLANS = {
         assumptions=['byte-level behaviour of html5ever and of the nom CSS tokenizer is explored, not modelled (DESIGN.md section 10): for those the specification supplies only the Call/Return oracle',
                      'time bound: 60 s per case in the quick tier, 15 min in the thorough tier'],
     ),
+    'C17': dict(
+        fams=[('c17', dict(quick=4000, thorough=80000), {})],
+        mc=[],
+        model_ok=False,
+        timeout_ms=dict(quick=30000, thorough=120000),
+        nontrivial=lambda rec: len(rec.get('runs', [])) >= 1 and rec['runs'][0]['res']['k'] in ('ok', 'csserr') and (len(rec['runs']) == 1 or any(len(x) > 2 and any(t[0] in ('Fg', 'Bg') for t in x[2]) for ln in rec['runs'][0]['res']['lines'] for x in ln) or rec['runs'][0]['route'] == 'string'),
+        rule='three shapes: (total) add_css / add_agent_css with truncations of valid sheets, token soup over the CSS token alphabet, byte-mutated sheets: Ok or CssParseError under a watchdog; (inert) a document with <style>s</style> (s without display / content / white-space / height / overflow) against the same document without it: same result kind and letters; (variant) a valid sheet of 1-4 colour rules in canonical spelling against a variant (spacing, comments, upper-case properties and hex digits, rgb() spelling, final ; dropped or doubled, unknown properties, @import / @media / @font-face / unparsable rule sets in between), via <style> or add_css: equal rich renderings; distinct by sha256(runs)',
+        assumptions=['the character-level tokenizer is explored, not modelled (DESIGN.md section 10)'],
+    ),
+    'C18': dict(
+        fams=[('c18', dict(quick=2500, thorough=50000), {})],
+        mc=[],
+        nontrivial=lambda rec: len(rec.get('runs', [])) >= 2 and rec['runs'][0]['res']['k'] == 'ok' and rec['runs'][0]['res'] != rec['runs'][2]['res'],
+        rule='block-grammar documents (lists, quotes, headings, links, tables, pre) in which random subtrees (incl. li, td, tr, table, a, headings) are hidden through a class rule, an id rule, an element rule, an inline style, or the height:0 + overflow:hidden idiom (rule or inline); run 1 = the document with use_doc_css, run 2 = the document with those subtrees deleted, runs 3/4 = use_doc_css off against the document stripped of its style element and style attributes; the predicate also checks that the deleted document is Css!DeleteHidden of the original (reference selector + cascade semantics); widths 1..100; non-trivial = hiding changes the output; distinct by sha256(runs)',
+        assumptions=['hidden sets are constructed by marking (the generator never evaluates selectors); the specification re-derives them with RefMatch / RefCascade and a disagreement is a tool error'],
+    ),
+    'C19': dict(
+        fams=[('c19', dict(quick=2500, thorough=50000), {})],
+        mc=[],
+        nontrivial=lambda rec: bool(rec.get('runs')) and rec['runs'][0]['res']['k'] == 'ok' and len({tuple(t) for ln in rec['runs'][0]['res']['lines'] for x in ln if len(x) > 2 for t in x[2] if t[0] in ('Fg', 'Bg')}) >= 2,
+        rule='documents with classes / ids and three sheets (agent via add_agent_css, user via add_css, author via <style>) of 0-3 rules each over selectors of the five specificity classes (element, class, id, element+class, nth-child) with normal / !important colour and background declarations, plus inline style / legacy color attributes; the effective colour of every letter (last Colour / BgColour annotation) must be the one Css!RefCascade gives for the nearest declared ancestor; non-trivial = at least two different colour annotations occur; distinct by sha256(runs)',
+        assumptions=['inline styles are written in the canonical spelling that the harness abstracts into declarations'],
+    ),
+    'C20': dict(
+        fams=[('c20', dict(quick=2500, thorough=50000), {})],
+        mc=[],
+        nontrivial=lambda rec: bool(rec.get('runs')) and rec['runs'][0]['res']['k'] == 'ok' and any(len(x) > 2 and any(t == ['Fg', 0, 0, 254] for t in x[2]) for ln in rec['runs'][0]['res']['lines'] for x in ln),
+        rule='documents of nested div/p/span/em/ul/li/section/b with classes {x,y,z}, ids and mixed text / element children; one author rule with 1-2 selectors of up to 4 compound steps (element, class(es), id, *, descendant and child combinators, :nth-child(an+b | odd | even) with a, b in -5..5) colouring over the agent rule * {color}; the letters coloured by the rule must be exactly those whose parent element Css!RefMatch designates (reference runs on the whole DOM incl. html / head / body); non-trivial = the rule colours at least one letter; distinct by sha256(runs)',
+        assumptions=['selector spelling varies in insignificant syntax only'],
+    ),
     'C03': dict(
         fams=[('c03', dict(quick=3000, thorough=60000), {})],
         mc=[MC_WRAP_MARKS, MC_BLOCK, MC_TABLE],
@@ -310,6 +340,8 @@ def run_check(prop, tier, seed, t0, no_mc=False):
                 known_hits.setdefault(fid, 0)
                 known_hits[fid] += 1
                 continue
+        if cls.startswith('generator-'):
+            raise vlib.ToolError('case %s: %s (the harness-side construction disagrees with the reference semantics)' % (cid, cls))
         if cls and any(f.get('class') == cls for f in findings):
             fid = [f['id'] for f in findings if f.get('class') == cls][0]
             known_hits.setdefault(fid, 0)
